@@ -21,11 +21,19 @@ from .snum import SNum
 SYM = (SNum, SInt, SBool)
 
 
+_DT = _np.ndarray.dtype
+
+
+def isobj(a) -> bool:
+    """true dtype of the buffer is object (SymArray reports a nominal complex128 dtype)"""
+    return _DT.__get__(a) == object
+
+
 def is_sym(x) -> bool:
     if isinstance(x, SYM):
         return True
     if isinstance(x, _np.ndarray):
-        return x.dtype == object
+        return isobj(x)
     if isinstance(x, (list, tuple)):
         return any(is_sym(e) for e in x)
     return False
@@ -39,10 +47,21 @@ def any_sym(*args) -> bool:
 # ndarray subclass giving object arrays complex semantics
 # --------------------------------------------------------------------------------------------
 class SymArray(_np.ndarray):
+    """object ndarray holding symbolic scalars, presenting complex semantics: the Python-visible
+    `.dtype` is the nominal complex128 (Cirq compares `state.dtype != dtype`), `.real/.imag/.astype`
+    act element-wise on the symbolic entries."""
+
     __array_priority__ = 100.0
 
+    @property
+    def dtype(self):
+        d = _DT.__get__(self)
+        if d == object:
+            return _np.dtype(_np.complex128)
+        return d
+
     def astype(self, dtype, *a, **k):
-        if self.dtype == object:
+        if isobj(self):
             dt = _np.dtype(dtype) if dtype is not object else _np.dtype(object)
             if dt.kind in 'fcO':
                 return self.copy()
@@ -56,13 +75,13 @@ class SymArray(_np.ndarray):
 
     @property
     def real(self):
-        if self.dtype == object:
+        if isobj(self):
             return _vec(lambda e: _coerce(e).real, self)
         return _np.ndarray.real.__get__(self)
 
     @property
     def imag(self):
-        if self.dtype == object:
+        if isobj(self):
             return _vec(lambda e: _coerce(e).imag, self)
         return _np.ndarray.imag.__get__(self)
 
@@ -90,7 +109,7 @@ def _coerce(e):
 
 
 def wrap(a):
-    if isinstance(a, _np.ndarray) and a.dtype == object and not isinstance(a, SymArray):
+    if isinstance(a, _np.ndarray) and isobj(a) and not isinstance(a, SymArray):
         return a.view(SymArray)
     return a
 
@@ -113,7 +132,7 @@ def obj_full(shape, value):
 def to_obj(a):
     """numeric ndarray -> object SymArray of SNum constants"""
     a = _np.asarray(a)
-    if a.dtype == object:
+    if isobj(a):
         return _vec(_coerce_keep, a)
     out = _np.empty(a.shape, dtype=object)
     of = out.reshape(-1)
@@ -233,7 +252,7 @@ class NpProxy(types.ModuleType):
 
     def asarray(self, obj, dtype=None, **k):
         dtype = _real_dtype(dtype)
-        if isinstance(obj, _np.ndarray) and obj.dtype == object:
+        if isinstance(obj, _np.ndarray) and isobj(obj):
             return wrap(obj)
         if is_sym(obj) or (isinstance(obj, (list, tuple)) and _deep_sym(obj)):
             return self.array(obj, dtype=dtype)
@@ -247,9 +266,9 @@ class NpProxy(types.ModuleType):
         return wrap(_np.copy(a, **k))
 
     def copyto(self, dst, src, **k):
-        if isinstance(dst, _np.ndarray) and dst.dtype != object and is_sym(src):
+        if isinstance(dst, _np.ndarray) and not isobj(dst) and is_sym(src):
             raise Escape('symx: copyto of symbolic data into a numeric buffer')
-        if isinstance(dst, _np.ndarray) and dst.dtype == object and not is_sym(src):
+        if isinstance(dst, _np.ndarray) and isobj(dst) and not is_sym(src):
             src = to_obj(src)
         return _np.copyto(dst, src, **k)
 
@@ -276,7 +295,7 @@ class NpProxy(types.ModuleType):
 
     def result_type(self, *args):
         args = [(_np.complex128 if (a is object or (isinstance(a, _np.dtype) and a == object)) else _real_dtype(a)) for a in args]
-        args = [(_np.dtype(_np.complex128) if (isinstance(a, _np.ndarray) and a.dtype == object) else a) for a in args]
+        args = [(_np.dtype(_np.complex128) if (isinstance(a, _np.ndarray) and isobj(a)) else a) for a in args]
         return _np.result_type(*args)
 
     def iscomplexobj(self, x):
@@ -294,7 +313,7 @@ class NpProxy(types.ModuleType):
         def f(self, x, *a, **k):
             if isinstance(x, SYM):
                 return getattr(_coerce(x), meth)()
-            if isinstance(x, _np.ndarray) and x.dtype == object:
+            if isinstance(x, _np.ndarray) and isobj(x):
                 return _vec(lambda e: getattr(_coerce(e), meth)(), x)
             if isinstance(x, (list, tuple)) and _deep_sym(x):
                 return _vec(lambda e: getattr(_coerce(e), meth)(), _np.array(x, dtype=object))
@@ -318,14 +337,14 @@ class NpProxy(types.ModuleType):
     def real(self, x):
         if isinstance(x, SYM):
             return _coerce(x).real
-        if isinstance(x, _np.ndarray) and x.dtype == object:
+        if isinstance(x, _np.ndarray) and isobj(x):
             return _vec(lambda e: _coerce(e).real, x)
         return _np.real(x)
 
     def imag(self, x):
         if isinstance(x, SYM):
             return _coerce(x).imag
-        if isinstance(x, _np.ndarray) and x.dtype == object:
+        if isinstance(x, _np.ndarray) and isobj(x):
             return _vec(lambda e: _coerce(e).imag, x)
         return _np.imag(x)
 
@@ -486,7 +505,7 @@ class NpProxy(types.ModuleType):
                 k['dtype'] = _real_dtype(k['dtype'])
                 if any_sym(*a) and _is_inexact_dtype(k['dtype']):
                     k.pop('dtype')
-            if 'out' in k and isinstance(k['out'], _np.ndarray) and k['out'].dtype == object:
+            if 'out' in k and isinstance(k['out'], _np.ndarray) and isobj(k['out']):
                 out = k.pop('out')
                 r = real(*[_objify_if_mixed(x, a) for x in a], **k)
                 out[...] = r
@@ -524,7 +543,7 @@ def _deep_sym(obj) -> bool:
     if isinstance(obj, SYM):
         return True
     if isinstance(obj, _np.ndarray):
-        return obj.dtype == object
+        return isobj(obj)
     if isinstance(obj, (list, tuple)):
         return any(_deep_sym(e) for e in obj)
     return False
@@ -533,7 +552,7 @@ def _deep_sym(obj) -> bool:
 def _deep_concrete(obj):
     if isinstance(obj, (list, tuple)):
         return [_deep_concrete(e) for e in obj]
-    if isinstance(obj, _np.ndarray) and obj.dtype == object:
+    if isinstance(obj, _np.ndarray) and isobj(obj):
         return [_deep_concrete(e) for e in obj]
     return _concrete(obj)
 
@@ -567,9 +586,11 @@ def _isclose(x, y, rtol, atol):
     d = xs - ys
     if d.is_const() and ys.is_const():
         return bool(abs(d.const_value()) <= atol + rtol * abs(ys.const_value()))
-    bound = atol
-    if rtol:
-        bound = atol + rtol * abs(ys)
+    if ys.is_const() or not rtol:
+        # |d| <= bound  <=>  d*conj(d) <= bound^2   (no abs/sqrt atom needed)
+        bound = atol + (rtol * abs(ys.const_value()) if ys.is_const() else 0.0)
+        return (d * d.conjugate()).real <= bound * bound
+    bound = atol + rtol * abs(ys)
     return abs(d) <= bound
 
 
